@@ -51,7 +51,8 @@ def make_case(tier, seed, index):
     index -= N_WRAP[tier]
     if index < N_SETTERS[tier]:
         return {"kind": "setters", "family": ["ET", "DT", "ES", "ES2"][index % 4],
-                "transport": "udp" if index % 4 >= 2 else ["udp", "tcp"][(index // 4) % 2], "vseed": index}
+                "transport": "udp" if index % 4 >= 2 else ["udp", "tcp"][(index // 4) % 2], "vseed": index,
+                "entry": "connect" if index % 3 == 0 else None}
     fr = rnd.choice(["rtu", "tcp", "aa55", "aa55tcp"])   # aa55tcp: AA55 commands over a TCP connection
     addr = rnd.choice([0, 1, 0x7F, 0x80, 0xF7, 0xFF, rnd.randrange(256)])
     cmds = []
@@ -333,7 +334,20 @@ def run_setters(case):
     calls = []
     world.events = _NullLog()
 
+    holder = {}
+
     async def main():
+        nonlocal inv
+        if case.get("entry") == "connect" and tr == "udp":
+            # the object is obtained through goodwe.connect() without a family (discovery), like applications do
+            try:
+                got = await goodwe.connect(C.HOST, C.port_of(tr), None, 0, 1, 1)
+            except Exception:  # noqa - not recognised by discovery: keep the constructed object
+                got = None
+            if got is not None and type(got).__name__ == type(inv).__name__:
+                inv = got
+                holder["via"] = "connect"
+            holder["from"] = len(frames)   # discovery probes with the addresses of all families
         await inv.read_device_info()
         ids = [s.id_ for s in inv.settings()]
         rnd.shuffle(ids)
@@ -372,6 +386,14 @@ def run_setters(case):
             violations.append(viol(f"C03:unparsable:setters:{fam}", f"{e}"))
             break
     check_mbap(violations, parsed, f"setters:{fam}")
+    # every Modbus frame of this object carries the family's default comm address (the object was created with 0)
+    want_addr = {"ET": 0xF7, "DT": 0x7F, "ES": 0xF7, "ES2": 0xF7}[fam]
+    for p_ in parsed[holder.get("from", 0):]:
+        if p_["framing"] in ("rtu", "tcp") and p_.get("addr") != want_addr:
+            violations.append(viol(f"C03:setters:comm-addr:{fam}",
+                                   f"{fam} object ({holder.get('via', 'constructor')}): frame {p_['raw'].hex()} is addressed "
+                                   f"to 0x{p_.get('addr', -1):02x}, the family's address is 0x{want_addr:02x}"))
+            break
     for rec in calls:
         if rec["outcome"].startswith("other:"):
             typ = rec["outcome"].split(":", 1)[1]
